@@ -395,6 +395,18 @@ def standard_prelude(prop, rep, whitelist=(), extra_targets=()):
     if g:
         broken.append("gate: forbidden construct(s): " + "; ".join(g[:5]))
     ok_gen, out_gen = regenerate()
+    if not ok_gen:
+        # A table section no longer recognises the source (a broken tie, reported below).  So that the
+        # failing-input search can still run the model, fall back to the committed snapshot of that table.
+        snapdir = os.path.join(VERIF, "harness", "snapshots")
+        for line in out_gen.splitlines():
+            if line.startswith("FAIL "):
+                stem = line.split()[1]
+                snap = os.path.join(snapdir, stem + ".v")
+                if os.path.exists(snap):
+                    shutil.copy(snap, os.path.join(THEORIES, "Gen", stem + ".v"))
+                    broken.append("translator no longer recognises the source for Gen/%s.v (%s); the committed snapshot of "
+                                  "the table is used for the failing-input search only" % (stem, line[5:].strip()[:300]))
     ok, out = build(["theories/Properties/%s.vo" % prop] + list(extra_targets))
     if not ok:
         broken.append("make failed: " + out[-1500:] +
